@@ -23,6 +23,8 @@ def parts(tier):
     return [
         Part('continuous', schedgen.histories(max_ops=35 if not T else 70, big=T, app=False), quick=200, thorough=1000),
         Part('colocate', schedgen.histories(max_ops=25 if not T else 50, big=T, app=False, colo=True), quick=60, thorough=400),
+        Part('jsrun_gpu_shares_lfs_mem', schedgen.histories(max_ops=20 if not T else 40, big=T, cls='jsrun', app=False,
+                                                            heavy=True, gpu_focus=True), quick=50, thorough=300),
         Part('jsrun', schedgen.histories(max_ops=25 if not T else 50, big=T, cls='jsrun', app=False), quick=40, thorough=200),
         Part('nodelist', nodelistsim.nl_cases(), quick=250, thorough=2500),
         Part('nodelist_numa', nodelistsim.numa_cases(), quick=60, thorough=600),
